@@ -356,6 +356,14 @@ pub fn unmanaged_race(prop: &'static str, seed: u64, close: bool) -> RaceOut {
             for i in 0..iters {
                 let r = std::panic::catch_unwind(std::panic::AssertUnwindSafe(|| -> Result<(), String> {
                     match if dense { 0 } else { (i + t) % 7 } {
+                        0 | 1 | 2 | 3 if (i + 2 * t) % 3 == 0 => {
+                            // a blocking get(), polled once and given up if it would have to wait
+                            match poll_once(pool.get()) {
+                                Some(Ok(o)) => drop(o),
+                                Some(Err(UErr::Closed)) | None => {}
+                                Some(Err(e)) => return Err(format!("get: {:?}", e)),
+                            }
+                        }
                         0 | 1 | 2 | 3 => match pool.try_get() {
                             Ok(o) => drop(o),
                             Err(UErr::Timeout) | Err(UErr::Closed) => {}
@@ -426,6 +434,9 @@ pub fn unmanaged_race(prop: &'static str, seed: u64, close: bool) -> RaceOut {
     let inside = made_n as i64 - dropped as i64 - outside_n as i64;
     let st = pool.status();
     if close {
+        if st.waiting != 0 {
+            viol.push(Violation { prop, oracle: "status_at_rest", msg: format!("closed pool at rest, every call has returned, but status() reports {} waiting callers ({:?})", st.waiting, st) });
+        }
         if inside != 0 || st.size != 0 || st.available != 0 {
             viol.push(Violation { prop, oracle: "closed_pool_holds_objects", msg: format!("closed pool at rest: {} objects alive inside (made {}, dropped {}, owned by callers {}), status {:?}", inside, made_n, dropped, outside_n, st) });
         }
@@ -626,4 +637,36 @@ pub fn unmanaged_bounds_race(prop: &'static str, seed: u64) -> RaceOut {
     let desc = format!("unmanaged bounds race regime={} timed_gets={} threads={} objects={} iters={} querier={} queries={}", if never_full { "never_full" } else if contended { "contended" } else { "never_empty" }, timed, g, n, iters, querier, queries);
     drop(timer_rt);
     RaceOut { violations: viol, hash: vh_common::fnv1a(desc.as_bytes()), desc: Json::obj().with("engine", "uth_race").with("profile_prop", prop).with("seed", seed).with("case", desc), events: calls.load(Ordering::Relaxed) as u64 + queries }
+}
+
+/// max_size far away from the small sizes of the histories: exactly `n` objects can be out at once.
+pub fn managed_big_pool(prop: &'static str, n: usize, lifo: bool) -> Vec<Violation> {
+    let mut v = Vec::new();
+    let cnt = Arc::new(Cnt::default());
+    let pool: Pool<LMgr> = Pool::builder(LMgr(cnt.clone())).max_size(n).queue_mode(if lifo { managed::QueueMode::Lifo } else { managed::QueueMode::Fifo }).build().unwrap();
+    for round in 0..2 {
+        let mut held = Vec::with_capacity(n);
+        for i in 0..n {
+            match poll_once(pool.timeout_get(&NB)) {
+                Some(Ok(o)) => held.push(o),
+                other => {
+                    v.push(Violation { prop, oracle: "capacity_probe", msg: format!("pool with max_size {} (round {}): get number {} ended with {:?} (status {:?})", n, round, i + 1, other.map(|r| r.map(|_| ())), pool.status()) });
+                    return v;
+                }
+            }
+        }
+        if let Some(Ok(_)) = poll_once(pool.timeout_get(&NB)) {
+            v.push(Violation { prop, oracle: "capacity_probe_extra", msg: format!("pool with max_size {} handed out object number {}", n, n + 1) });
+        }
+        let st = pool.status();
+        if st.max_size != n || st.size != n || st.available != 0 {
+            v.push(Violation { prop, oracle: "status_at_rest", msg: format!("pool with max_size {} and all objects out reports {:?}", n, st) });
+        }
+        drop(held);
+    }
+    let created = cnt.created.load(Ordering::SeqCst);
+    if created != n {
+        v.push(Violation { prop, oracle: "create_with_idle_available", msg: format!("pool with max_size {}: {} objects were created over two rounds of {} gets", n, created, n) });
+    }
+    v
 }
